@@ -297,3 +297,14 @@ Print Assumptions C12_tie_machine_hook_order_close.
 Print Assumptions C12_tie_machine_hook_order_finish.
 Print Assumptions C12_tie_machine_expansion.
 Print Assumptions C12_tie_machine_expand_total.
+
+(** stage 2: the same with any number of Continue plugins registered (their built-in on_finished, [cont_finished], runs
+    inside the on_finished gate, publishes only: no hook, no state change) *)
+Theorem C12_tie_machine_hook_order_finish_all : forall s,
+  match MachineTie.run_tail (st_fsm s) with Some k => Some (MachineTie.hook_order k s) | None => None end =
+  match st_fsm s with
+  | Running => Some [(HFinished, Finished); (HChangeState, Finished)]
+  | _ => Some []
+  end.
+Proof. exact MachineTie.hook_order_finish_all. Qed.
+Print Assumptions C12_tie_machine_hook_order_finish_all.
